@@ -249,7 +249,10 @@ def judge(hdr, ops, tree, config, rejections, stats):
             issued = any(e[0] == 'log' and e[1] == 'T' for e in op.events) or \
                 any(e[0] == 'cb' and any(a.startswith('Q') for a in actions_of(e)) for e in op.events)
             # without a logger the plan executor's requests are invisible: judge only plan-free steps then
-            blind = str(hdr.get('config', {}).get('log', '1')) == '0' and before.get('PL', '').strip('|') != ''
+            # (a plan that existed before the step, or one a callback of this very step appended to)
+            blind = str(hdr.get('config', {}).get('log', '1')) == '0' and (
+                before.get('PL', '').strip('|') != '' or
+                any(e[0] == 'cb' and any(a.startswith('PA') for a in actions_of(e)) for e in op.events))
             if op.name in ('update', 'react') and int(before['A'], 16) & 1 and before.get('Q') == '[]' \
                     and not issued and not blind:
                 stats.inc('checks_' + PID)
